@@ -20,6 +20,8 @@ import (
 	"github.com/cedar-policy/cedar-go/verifharness/gen"
 	"github.com/cedar-policy/cedar-go/x/exp/batch"
 	"github.com/cedar-policy/cedar-go/x/exp/schema"
+	"github.com/cedar-policy/cedar-go/x/exp/schema/resolved"
+	exptypes "github.com/cedar-policy/cedar-go/x/exp/types"
 )
 
 type Prop struct{}
@@ -60,6 +62,7 @@ type scenario struct {
 	schemaJS []byte
 	doc      []byte // a document of 0-14 statements (ids policy0..n-1 when loaded)
 	docN     int
+	resolved *resolved.Schema
 }
 
 var idPool = []cedar.PolicyID{"p0", "p1", "p10", "p2", "a", "B", "policy0", "é"}
@@ -178,6 +181,9 @@ func genScenario(r *core.Run) *scenario {
 		var s schema.Schema
 		if err := s.UnmarshalCedar(sc.schema.Cedar); err == nil {
 			sc.schemaJS, _ = s.MarshalJSON()
+			if rs, err := s.Resolve(); err == nil {
+				sc.resolved = rs
+			}
 		}
 	}
 	return sc
@@ -400,6 +406,16 @@ func observe(r *core.Run, sc *scenario, canonical bool) (out []obs, permuted boo
 		b, _ := json.Marshal(v)
 		add(fmt.Sprintf("value JSON->JSON[%d]", i), string(b))
 		add(fmt.Sprintf("value JSON->Cedar text[%d]", i), string(v.MarshalCedar()))
+	}
+	if sc.resolved != nil && sc.schema.Entities != nil {
+		// schema-aware entity decoding (coercion rebuilds values), then re-encoding
+		var em exptypes.EntityMap
+		if err := em.UnmarshalJSONWithSchema(sc.schema.Entities, sc.resolved); err != nil {
+			add("entities JSON->(schema-aware decode)->JSON", "ERR")
+		} else {
+			b, err := json.Marshal(types.EntityMap(em))
+			add("entities JSON->(schema-aware decode)->JSON", okOrErr(b, err))
+		}
 	}
 	if sc.schema != nil {
 		var s schema.Schema
